@@ -311,3 +311,36 @@ m('c12-r6-double-miss-osu', 'C12', 'C12-R6', 'osu:remainder-units', (
 m('c19-r4-helper-push', 'C19', 'C19-R4', 'effect_points', (
     'src/taiko/convert.rs', "    effect_point.add(effect_points);", "    effect_points.push(effect_point);"),
   diff='selftest/refactor_diffs/C19-r1.diff')
+
+# the shared has_mod look-up of agent refactor C08-r4, answering `true` for mods that have no legacy flag
+m('c08-r1-shared-lookup-none-true', 'C08', 'C08-R1', 'has:', (
+    'src/model/mods.rs', "                None => false,", "                None => true,"),
+  diff='selftest/refactor_diffs/C08-r4.diff')
+
+# the assignment style of agent refactor C17-r4, but the hp override is guarded by the *od* getter
+m('c17-r3-guard-of-other-getter', 'C17', 'C17-R3', 'difficulty:hp', (
+    'src/model/beatmap/attributes.rs', "        if let Some(hp) = difficulty.get_hp() {\n            self.hp = ModsDependentKind::Custom(hp);\n        }",
+    "        if difficulty.get_od().is_some() {\n            self.hp = ModsDependentKind::Custom(difficulty.get_hp().unwrap_or_default());\n        }"),
+  diff='selftest/refactor_diffs/C17-r4.diff')
+
+# the install helper of agent refactor C19-r5 without its sort
+m('c19-r3-helper-no-sort', 'C19', 'C19-R3', 'mania::convert::', (
+    'src/mania/convert/mod.rs', "    map.hit_sounds.clear();\n    map.hit_objects.sort_by(cmp_by_start_time);\n}", "    map.hit_sounds.clear();\n    let _ = cmp_by_start_time;\n}"),
+  diff='selftest/refactor_diffs/C19-r5.diff')
+
+# F10 re-introduced: the lazer arm decides DT vs HT by iteration order, the intermode arm delegates to rosu-mods' iteration-order helper
+m('c08-r3-iteration-order', 'C08', 'C08-R3', 'GameMods::clock_rate', (
+    'src/model/mods.rs', "                mods.iter()\n                    .filter(speeds_up)\n                    .find_map(rate_of)\n                    .or_else(|| mods.iter().find_map(rate_of))\n                    .unwrap_or(1.0)",
+    "                let _ = speeds_up;\n                mods.iter().find_map(rate_of).unwrap_or(1.0)"))
+m('c08-r3-legacy-clock-rate-helper', 'C08', 'C08-R3', 'legacy_clock_rate', (
+    'src/model/mods.rs', "                if mods.contains(GameModIntermode::DoubleTime)\n                    || mods.contains(GameModIntermode::Nightcore)\n                {\n                    1.5\n                } else if mods.contains(GameModIntermode::HalfTime)\n                    || mods.contains(GameModIntermode::Daycore)\n                {\n                    0.75\n                } else {\n                    1.0\n                }",
+    "                mods.legacy_clock_rate()"))
+
+# seed C05-3 itself: shared start_column() helper that drops the free-column half of the guard
+m('c05-r3-dropped-free-column-guard', 'C05', 'C05-R3', 'start_column', diff='selftest/seed_diffs/C05-3.diff')
+# seed C10-3's slip in its smallest form: the raw sum stops at the first zero section
+m('c10-r5-sum-take-while', 'C10', 'C10-R5', 'sum:raw_strains', (
+    'src/util/strains_vec.rs', "            self.inner.iter().copied().sum()", "            self.inner.iter().copied().take_while(|&a| a > 0.0).sum()"))
+
+# seed C11-3 itself: the unchecked NonZero helper reached without the clamp through Option::map
+m('c11-r6-helper-unclamped-caller', 'C11', 'C11-R6', 'f64_to_non_zero_u64', diff='selftest/seed_diffs/C11-3.diff')
